@@ -209,6 +209,9 @@ static bool decode_utf8(const vector<UINT8> &in_data, deque<int> &out_data)
          // invalid UTF-8 sequence
          return(false);
       }
+      // smallest value that needs a sequence with that many trail bytes
+      static const int min_value[] = { 0, 0x80, 0x800, 0x10000, 0x200000, 0x4000000 };
+      const int        trail       = cnt;
 
       while (  cnt-- > 0
             && idx < in_data.size())
@@ -226,6 +229,12 @@ static bool decode_utf8(const vector<UINT8> &in_data, deque<int> &out_data)
       if (cnt >= 0)
       {
          // short UTF-8 sequence
+         return(false);
+      }
+
+      if (ch < min_value[trail])
+      {
+         // an overlong form would be written back in its shortest form
          return(false);
       }
       out_data.push_back(ch);
